@@ -389,7 +389,9 @@ class DictDecoder:
         subclasses = list(self.context.get_subclasses(var.clazz))
         if subclasses:
             # field annotation is an abstract/base type, on equal scores
-            # the first candidate wins: the declared type goes first
+            # the first candidate wins: the declared type goes first,
+            # then the least derived classes
+            subclasses.sort(key=lambda clazz: len(clazz.__mro__))
             candidates = collections.unique_sequence([var.clazz, *subclasses])
             return self.bind_best_dataclass(data, candidates)
 
